@@ -314,6 +314,32 @@ ASSUME_W = [
 ]
 
 
+_OWN_BASE = None
+
+
+def claim_scratch_base():
+    """One scratch directory per check invocation; every forked worker and every replay
+    subprocess puts its files below it (DSIM_SCRATCH_BASE), and the invocation removes it when
+    it ends - pool workers are terminated without running their atexit handlers."""
+    global _OWN_BASE
+    if os.environ.get("DSIM_SCRATCH_BASE") and os.path.isdir(os.environ["DSIM_SCRATCH_BASE"]):
+        return
+    import tempfile
+
+    d = "/dev/shm" if os.access("/dev/shm", os.W_OK) else None
+    _OWN_BASE = tempfile.mkdtemp(prefix="dsimw-", dir=d)
+    os.environ["DSIM_SCRATCH_BASE"] = _OWN_BASE
+
+
+def cleanup_scratch():
+    global _OWN_BASE
+    if _OWN_BASE:
+        import shutil
+
+        shutil.rmtree(_OWN_BASE, ignore_errors=True)
+        _OWN_BASE = None
+
+
 def main(argv=None):
     ap = argparse.ArgumentParser()
     ap.add_argument("prop")
@@ -328,6 +354,7 @@ def main(argv=None):
     prop = args.prop
     if boot.pin_env():
         os.execve(sys.executable, [sys.executable] + sys.argv, os.environ)
+    claim_scratch_base()
     seed = int(os.environ.get("VERIF_SEED", "0") or 0)
     tier = args.tier if args.tier in ("quick", "thorough") else "quick"
     if prop in NA_PROPS:
